@@ -44,7 +44,7 @@ def _literal(s: dict[str, Any], alphabet: str) -> Any:
     if s["mode"] == "bin":
         return st.one_of(
             st.binary(min_size=1, max_size=2).map(lambda b: ["blit", b.hex()]),
-            st.sampled_from(["a", "b", "ab", "0", "7"]).map(lambda t: ["lit", t]),
+            st.sampled_from(["a", "b", "ab", "0", "7", "a", "b", "é", "ü", "€b"] if s["non_ascii"] else ["a", "b", "ab", "0", "7"]).map(lambda t: ["lit", t]),
             st.sampled_from([b"a", b"\x00", b"\xff\x01", b"b"]).map(lambda b: ["blit", b.hex()]),
         )
     alpha = alphabet + ("é€" if s["non_ascii"] else "")
@@ -156,7 +156,7 @@ def _mentions(n: Any, names: list[str]) -> bool:
         return n[1] in names
     if n[0] in ("seq", "alt"):
         return any(_mentions(c, names) for c in n[1])
-    if n[0] in ("star", "plus", "opt", "rep"):
+    if n[0] in ("star", "plus", "opt", "rep", "crep"):
         return _mentions(n[1], names)
     return False
 
@@ -194,7 +194,7 @@ def uses(spec: dict[str, Any]) -> set[str]:
         if n[0] in ("seq", "alt"):
             for c in n[1]:
                 walk(c)
-        elif n[0] in ("star", "plus", "opt", "rep"):
+        elif n[0] in ("star", "plus", "opt", "rep", "crep"):
             if n[0] == "rep" and n[3] is None:
                 out.add("openrep")
             walk(n[1])
